@@ -10,8 +10,8 @@ open FFVerif
 /-- the subscripts of the generated contractions used by the model -/
 theorem gradient_einsum_shape :
     Gen.gradient_calculate_filter_function_derivative_0_subscripts = "ako,hotak->atho" ∧
-    Gen.gradient_infidelity_derivative_0_subscripts = "...o,...tho->...tho" ∧
-    Gen.gradient_infidelity_derivative_0_args = ["spectrum", "filter_function_deriv"] :=
+    Gen.gradient_infidelity_derivative_1_subscripts = "...o,...tho->...tho" ∧
+    Gen.gradient_infidelity_derivative_1_args = ["spectrum", "filter_function_deriv"] :=
   ⟨rfl, rfl, rfl⟩
 
 end FFVerif.C11
